@@ -250,11 +250,18 @@ fn eval_history(setup: &str, project: &Option<Vec<usize>>, hist: &[usize]) -> Op
 fn vcf_of(rows: &[&Vec<Cls>], with_header: bool) -> Vec<u8> {
     let mut cs = CallSet::new(4);
     for (i, row) in rows.iter().enumerate() {
-        let gts: Vec<&str> = row.iter().enumerate().map(|(j, c)| c.spell(j)).collect();
-        cs.push_gts(&gts);
+        // a record in which nobody is called is written as a record whose FORMAT has no GT key;
+        // records with one ALT count pattern carry an extra INFO and FORMAT field
+        if row.iter().all(|c| *c == Cls::Missing) {
+            cs.push_gts(&[crate::gen::NO_GT_KEY; 4]);
+        } else {
+            let gts: Vec<&str> = row.iter().enumerate().map(|(j, c)| c.spell(j)).collect();
+            cs.push_gts(&gts);
+        }
         let last = cs.records.len() - 1;
         cs.records[last].alts = vec!["C", "G", "T"];
         cs.records[last].pos = 100 + i;
+        cs.records[last].decorated = row[0] == Cls::G1 && row[1] == Cls::G0;
     }
     let _ = with_header;
     to_vcf(&cs).0
@@ -274,7 +281,7 @@ pub fn run(tier: Tier) -> i32 {
     let mut rep = Report::new("C11", tier, "model_checking");
     let ks = kinds();
     rep.rule = format!(
-        "explicit-state search: 2 populations x 2 samples, set-ups {{no projection, project to (2,2), (4,1), (0,2), (3,0), (0,0) chromosomes}}, alphabet of {} site kinds (complete patterns, partially missing in each/both populations, exactly sufficient, insufficient, multiallelic, all missing, and three kinds with equal allele counts but different called totals). State = hook snapshot (counts, totals, #skipped samples, projection scratch buffer) after a record was read and consumed; BFS until no new state appears; on every transition the Site produced must equal (bitwise) the one a fresh reader produces for that kind and the reference. Bounded histories: every sequence up to length {} accumulates to the sum of single-site contributions (hence every permutation agrees). L2: all permutations and split points of a 6-record VCF. Non-trivial = a transition from a non-initial state.",
+        "explicit-state search: 2 populations x 2 samples, set-ups {{no projection, project to (2,2), (4,1), (0,2), (3,0), (0,0) chromosomes}}, alphabet of {} site kinds (complete patterns, partially missing in each/both populations, exactly sufficient, insufficient, multiallelic, all missing, and three kinds with equal allele counts but different called totals). State = hook snapshot (counts, totals, #skipped samples, projection scratch buffer) after a record was read and consumed; BFS until no new state appears; on every transition the Site produced must equal (bitwise) the one a fresh reader produces for that kind and the reference. Bounded histories: every sequence up to length {} accumulates to the sum of single-site contributions (hence every permutation agrees). L2: all permutations and split points of a 7-record VCF (one record without a GT key, one with extra INFO/FORMAT fields). Non-trivial = a transition from a non-initial state.",
         ks.len(),
         tier.pick(3, 4)
     );
@@ -334,8 +341,9 @@ pub fn run(tier: Tier) -> i32 {
 
     // L2
     let scratch = Scratch::new("c11");
-    let pick: Vec<&Vec<Cls>> = [1usize, 5, 8, 9, 12, 13].iter().map(|&i| &ks[i].1).collect();
-    let perms = if tier.thorough() { permutations(6) } else { permutations(6).into_iter().step_by(3).collect() };
+    let pick: Vec<&Vec<Cls>> = [1usize, 5, 8, 9, 11, 12, 13].iter().map(|&i| &ks[i].1).collect();
+    let np = pick.len();
+    let perms: Vec<Vec<usize>> = if tier.thorough() { permutations(np) } else { permutations(np).into_iter().step_by(21).collect() };
     let mut l2jobs: Vec<(Vec<usize>, bool)> = Vec::new();
     for p in &perms {
         for proj in [false, true] {
@@ -357,7 +365,7 @@ pub fn run(tier: Tier) -> i32 {
         } else {
             Some((
                 format!("C11|cli|permutation-changes-result|{}", if *proj { "project" } else { "no-projection" }),
-                format!("records in order {p:?} give {got:?}, in order 0..6 {b:?}"),
+                format!("records in order {p:?} give {got:?}, in input order {b:?}"),
                 J::obj([("kind", J::s("c11-perm")), ("order", J::usizes(p)), ("project", J::Bool(*proj))]),
             ))
         }
@@ -369,7 +377,7 @@ pub fn run(tier: Tier) -> i32 {
     let mut n_split = 0;
     for proj in [false, true] {
         for p in perms.iter().step_by(24) {
-            for cut in 0..=6 {
+            for cut in 0..=np {
                 n_split += 1;
                 let rows: Vec<&Vec<Cls>> = p.iter().map(|&j| pick[j]).collect();
                 let a = cli_create(&rows[..cut], proj, &scratch);
@@ -389,8 +397,59 @@ pub fn run(tier: Tier) -> i32 {
             }
         }
     }
+    // a cohort of 150 samples under projection: tables that depend on sizes must not depend on the
+    // order in which records with different numbers of called samples arrive
+    {
+        let n = 150usize;
+        let missing = [25usize, 0, 10, 0];
+        let mk = |order: &[usize]| -> Vec<u8> {
+            let mut cs = CallSet::new(n);
+            for (i, &r) in order.iter().enumerate() {
+                let gts: Vec<String> = (0..n)
+                    .map(|j| if j < missing[r] { "./.".to_string() } else { ["0/0", "0/1", "1/1", "0/1"][(j * (r + 2) + r) % 4].to_string() })
+                    .collect();
+                cs.push_gts(&gts);
+                let last = cs.records.len() - 1;
+                cs.records[last].pos = 500 + i;
+            }
+            to_vcf(&cs).0
+        };
+        let run = |order: &[usize]| -> Result<RefArray, String> { parse_out(&run_sfs(&["create", "-p", "100", "--precision", "9"], Stdin::Bytes(&mk(order)), &scratch)) };
+        let singles: Vec<Result<RefArray, String>> = (0..4).map(|r| run(&[r])).collect();
+        let orders = permutations(4);
+        let res = par_map(orders.len(), |i| {
+            let got = run(&orders[i]);
+            let ok = match (&got, singles.iter().map(|s| s.as_ref()).collect::<Result<Vec<_>, _>>()) {
+                (Ok(g), Ok(ss)) => g.data.iter().enumerate().all(|(c, v)| {
+                    let sum: f64 = ss.iter().map(|s| s.data[c]).sum();
+                    (v - sum).abs() <= 1e-6 * sum.abs() + 1e-8
+                }),
+                _ => false,
+            };
+            if ok {
+                None
+            } else {
+                Some((
+                    "C11|cli|cohort-order-changes-result".to_string(),
+                    format!("150 samples, -p 100, records in order {:?}: {:?} is not the sum of the four single-record runs", orders[i], got.map(|g| g.data.iter().take(6).cloned().collect::<Vec<_>>())),
+                    J::obj([("kind", J::s("c11-cohort")), ("order", J::usizes(&orders[i]))]),
+                ))
+            }
+        });
+        for v in res.into_iter().flatten() {
+            rep.violation(v.0, v.1, v.2);
+        }
+        rep.part(Part {
+            name: "cli: 150-sample cohort, every order of four records".into(),
+            evaluations: orders.len() as u64 + 4,
+            nontrivial: orders.len() as u64,
+            note: "four records with 250, 300, 280 and 300 called chromosomes, create -p 100: each of the 24 orders must give the sum of the four single-record spectra".into(),
+            exhaustive: true,
+            extra: vec![],
+        });
+    }
     rep.part(Part {
-        name: "cli: permutations and split points of a 6-record VCF".into(),
+        name: "cli: permutations and split points of a 7-record VCF (one record without a GT key, one with extra INFO/FORMAT fields)".into(),
         evaluations: (l2jobs.len() + 3 * n_split) as u64,
         nontrivial: (l2jobs.len() + 3 * n_split) as u64,
         note: format!("{} permutations x {{no projection, --project-shape 3,3}}; {} split points (create(a)+create(b) = create(a||b))", perms.len(), n_split),
@@ -424,6 +483,33 @@ pub fn replay(case: &J) -> Option<Vec<String>> {
                 }
             }
             Some(out)
+        }
+        "c11-perm" | "c11-split" => {
+            let ks = kinds();
+            let pick: Vec<&Vec<Cls>> = [1usize, 5, 8, 9, 11, 12, 13].iter().map(|&i| &ks[i].1).collect();
+            let order = case.get("order")?.as_usizes()?;
+            let proj = matches!(case.get("project"), Some(J::Bool(true)));
+            let scratch = Scratch::new("c11r");
+            let rows: Vec<&Vec<Cls>> = order.iter().map(|&j| pick[j]).collect();
+            let whole = cli_create(&rows, proj, &scratch);
+            let tol = if proj { 1e-9 } else { 0.0 };
+            if case.get("kind")?.as_str()? == "c11-perm" {
+                let base = cli_create(&pick, proj, &scratch);
+                let ok = match (&whole, &base) {
+                    (Ok(x), Ok(y)) => x.shape == y.shape && x.data.iter().zip(&y.data).all(|(a, c)| (a - c).abs() <= tol),
+                    _ => false,
+                };
+                Some(if ok { vec![] } else { vec![format!("C11|cli|permutation-changes-result :: order {order:?}: {whole:?} vs input order {base:?}")] })
+            } else {
+                let cut = case.get("cut")?.as_i64()? as usize;
+                let a = cli_create(&rows[..cut], proj, &scratch);
+                let b = cli_create(&rows[cut..], proj, &scratch);
+                let ok = match (&a, &b, &whole) {
+                    (Ok(x), Ok(y), Ok(w)) => w.data.iter().zip(x.data.iter().zip(&y.data)).all(|(w, (x, y))| (w - (x + y)).abs() <= tol),
+                    _ => false,
+                };
+                Some(if ok { vec![] } else { vec![format!("C11|cli|split-not-additive :: order {order:?} cut {cut}: {a:?} + {b:?} != {whole:?}")] })
+            }
         }
         _ => None,
     }
